@@ -1,8 +1,10 @@
 ---- MODULE PinvCatalog ----
 \* Stub used only for syntax checking (setup.sh); the real module is generated on every run of ./check C16
+\* scales (optional): Gaussian rationals c for which TLC checks pinv(c A) b = pinv(A) b / c
 EXTENDS Integers, Sequences
 PCases == <<[id |-> "stub", kind |-> "Dense",
              A |-> [r |-> 1, c |-> 1, d |-> 1, e |-> <<<<<<2, 0>>>>>>],
              b |-> [r |-> 1, c |-> 1, d |-> 1, e |-> <<<<<<1, 0>>>>>>],
-             sc |-> <<0, 0>>, diag |-> <<<<0, 0>>>>, perm |-> <<1>>]>>
+             sc |-> <<0, 0>>, diag |-> <<<<0, 0>>>>, perm |-> <<1>>,
+             scales |-> <<[n |-> <<1, 0>>, d |-> 10], [n |-> <<0, 1>>, d |-> 1]>>]>>
 ====
